@@ -17,6 +17,14 @@
    processes (hash(), id(), pid, clocks, uuid4, urandom) and iteration in set order -- seed material built from
    them is stable inside one process only.  Helper functions of the restricted modules (pipeline/_impl.py, ...)
    that take randomness are part of the graph.
+   Ambient state (added after seeds C11-4 / C11-6 were missed).  A use of the function's own generator (a Draw, or a
+   Call that hands it on, or a spawn) is reported as `Cond what stmt` -- never closed -- when it is conditional on
+   state that is not part of (seed, inputs, call sequence): it sits under an if / while / conditional expression whose
+   test consults the logging level, the environment, the configured or detected thread / CPU counts, warnings
+   filters, interpreter flags (AMBIENT below) or a name computed from such a value; it follows an early exit guarded
+   by such a test; or its arguments mention such a value (rng.spawn(nthreads)).  A truth-value test of seed material
+   (`if not seed`, `seed or default`) inside a function that takes randomness is reported as Global: 0 and the empty
+   sequence are valid seeds.
    A local name is "derived from the caller's randomness" if it is assigned from an expression that
    mentions a derived name (rng = random_generator(rng); seed = SeedSequence(options.rng);
    c_opts = replace(options, rng=seed.spawn(1)[0]); train_ctx = self.prepare_context(options); ...), or if
@@ -47,7 +55,7 @@ MODULES = [
     "lenskit/flexmf/_base.py", "lenskit/flexmf/_training.py", "lenskit/flexmf/_model.py",
     "lenskit/flexmf/_explicit.py", "lenskit/flexmf/_implicit.py", "lenskit/sklearn/svd.py", "lenskit/knn/item.py",
 ]
-RAND_PARAMS = ["rng", "options", "context", "generator", "seed", "random_state", "torch_rng"]
+RAND_PARAMS = ["rng", "options", "context", "generator", "seed", "random_state", "torch_rng", "spec"]
 SELF_RAND = {"rng", "_rng_factory", "seed"}
 PRIMITIVES = {"random_generator", "set_global_rng", "derivable_rng", "make_seed", "load_seed", "_bytes_seed",
               "DerivingRNG.__call__", "DerivingRNG.__init__", "FixedRNG.__call__", "FixedRNG.__init__",
@@ -63,6 +71,24 @@ GLOBAL_CALLS = {"torch.manual_seed", "torch.seed", "np.random.seed"}
 # values that differ between interpreter processes: seed material must not be built from them
 PROCESS_DEPENDENT = {"hash", "id", "os.getpid", "time.time", "time.time_ns", "time.perf_counter", "uuid.uuid4", "uuid4",
                      "os.urandom", "secrets.token_bytes", "secrets.randbits"}
+# ambient state: values that are not part of (seed, inputs, call sequence).  Matched on the dotted name of a call or
+# attribute / name read; entries starting with "." match the last component (methods of logger objects).
+AMBIENT = {
+    ".isEnabledFor": "logging-level", ".getEffectiveLevel": "logging-level", ".is_enabled_for": "logging-level",
+    ".get_effective_level": "logging-level", "active_logging_config": "logging-level", "logging.root": "logging-level",
+    "get_parallel_config": "thread-count", "effective_cpu_count": "thread-count", "os.cpu_count": "thread-count",
+    "cpu_count": "thread-count", "multiprocessing.cpu_count": "thread-count", "mp.cpu_count": "thread-count",
+    "os.process_cpu_count": "thread-count", "os.sched_getaffinity": "thread-count",
+    "torch.get_num_threads": "thread-count", "torch.get_num_interop_threads": "thread-count",
+    "threadpool_info": "thread-count", "numba.get_num_threads": "thread-count", "get_num_threads": "thread-count",
+    "threading.active_count": "thread-count", "is_worker": "process-role", "is_mp_worker": "process-role",
+    "os.environ": "environment", "os.environ.get": "environment", "os.getenv": "environment", "environ": "environment",
+    "getenv": "environment",
+    "warnings.filters": "warnings-filters", "sys.warnoptions": "warnings-filters", "sys.flags": "interpreter-flags",
+    "__debug__": "interpreter-flags", "sys.gettrace": "interpreter-flags", "sys.stdout.isatty": "terminal",
+    "sys.stderr.isatty": "terminal", "torch.are_deterministic_algorithms_enabled": "interpreter-flags",
+}
+
 PIPELINE_ONLY = {"lenskit/pipeline/_impl.py": {"Pipeline.train"}, "lenskit/training.py": {"TrainingOptions.random_generator", "IterativeTraining.train"},
                  "lenskit/data/relationships.py": {"MatrixRelationshipSet.sample_negatives", "MatrixRelationshipSet._check_negatives_and_resample"}}
 
@@ -152,6 +178,95 @@ def mentions(expr, names: set[str]) -> bool:
     return False
 
 
+def ambient_of(expr, amb_names: dict[str, str]):
+    """The kind of ambient state an expression consults (None: none): a call / read of an AMBIENT entry or a name
+    computed from one."""
+    for x in ast.walk(expr):
+        if isinstance(x, ast.Call):
+            d = dotted(x.func)
+            if d in AMBIENT:
+                return AMBIENT[d]
+            if isinstance(x.func, ast.Attribute) and "." + x.func.attr in AMBIENT:
+                return AMBIENT["." + x.func.attr]
+        if isinstance(x, (ast.Name, ast.Attribute)):
+            d = dotted(x)
+            if d in AMBIENT and isinstance(getattr(x, "ctx", None), ast.Load):
+                return AMBIENT[d]
+            if d in amb_names:
+                return amb_names[d]
+    return None
+
+
+EXITS = (ast.Return, ast.Raise, ast.Break, ast.Continue)
+
+
+def control_conditions(fn_node, amb_names):
+    """call node id -> kind of ambient state its execution is conditional on."""
+    cond_of: dict[int, str] = {}
+    state = {"after_exit": None}
+
+    def tag(node, cond):
+        if node is None:
+            return
+        for x in ast.walk(node):
+            if isinstance(x, ast.IfExp):
+                w = ambient_of(x.test, amb_names)
+                if w:
+                    for sub in (x.body, x.orelse):
+                        for y in ast.walk(sub):
+                            if isinstance(y, ast.Call):
+                                cond_of.setdefault(id(y), w)
+            if isinstance(x, ast.BoolOp):         # short circuit: operands after an ambient operand
+                w = None
+                for v in x.values:
+                    if w:
+                        for y in ast.walk(v):
+                            if isinstance(y, ast.Call):
+                                cond_of.setdefault(id(y), w)
+                    w = w or ambient_of(v, amb_names)
+            if isinstance(x, ast.Call) and cond:
+                cond_of.setdefault(id(x), cond)
+
+    def block(stmts, cond):
+        for st in stmts:
+            here = cond or state["after_exit"]
+            if isinstance(st, (ast.If, ast.While)):
+                tag(st.test, here)
+                w = ambient_of(st.test, amb_names)
+                block(st.body, here or w)
+                block(st.orelse, here or w)
+                if w and any(isinstance(y, EXITS) for z in st.body + st.orelse for y in ast.walk(z)):
+                    state["after_exit"] = state["after_exit"] or w
+            elif isinstance(st, (ast.For, ast.AsyncFor)):
+                tag(st.iter, here)
+                w = ambient_of(st.iter, amb_names)       # a loop whose trip count is ambient
+                block(st.body, here or w)
+                block(st.orelse, here)
+            elif isinstance(st, (ast.With, ast.AsyncWith)):
+                for it in st.items:
+                    tag(it.context_expr, here)
+                block(st.body, here)
+            elif isinstance(st, ast.Try):
+                block(st.body, here)
+                for h in st.handlers:
+                    block(h.body, here)
+                block(st.orelse, here)
+                block(st.finalbody, here)
+            elif isinstance(st, ast.Match):
+                tag(st.subject, here)
+                w = ambient_of(st.subject, amb_names)
+                for c in st.cases:
+                    block(c.body, here or w)
+            elif isinstance(st, (ast.FunctionDef, ast.AsyncFunctionDef)):
+                block(st.body, here)
+            elif isinstance(st, ast.ClassDef):
+                block(st.body, here)
+            else:
+                tag(st, here)
+    block(fn_node.body, None)
+    return cond_of
+
+
 def analyse(fn: Fn, by_simple: dict[str, list[Fn]]):
     """Returns list of statements (kind, ...) in source order."""
     derived: set[str] = set(fn.rand_params) | {"self." + a for a in fn.self_rand}
@@ -204,6 +319,46 @@ def analyse(fn: Fn, by_simple: dict[str, list[Fn]]):
                 if d in GEN_MAKERS or (isinstance(v.func, ast.Attribute) and v.func.attr in ("random_generator", "spawn")):
                     gens.add(t)
 
+    # names computed from ambient state (nthreads = get_parallel_config().threads; verbose = log.isEnabledFor(...))
+    amb_names: dict[str, str] = {}
+    changed = True
+    while changed:
+        changed = False
+        for x in ast.walk(fn.node):
+            tgts, val = [], None
+            if isinstance(x, ast.Assign):
+                tgts, val = x.targets, x.value
+            elif isinstance(x, ast.AnnAssign) and x.value is not None:
+                tgts, val = [x.target], x.value
+            elif isinstance(x, ast.NamedExpr):
+                tgts, val = [x.target], x.value
+            elif isinstance(x, ast.AugAssign):
+                tgts, val = [x.target], x.value
+            elif isinstance(x, (ast.For, ast.comprehension)):
+                tgts, val = [x.target], x.iter
+            if val is None:
+                continue
+            w = ambient_of(val, amb_names)
+            if w:
+                for t in tgts:
+                    for e in (t.elts if isinstance(t, (ast.Tuple, ast.List)) else [t]):
+                        d = dotted(e)
+                        if d and d not in amb_names and d not in derived:
+                            amb_names[d] = w
+                            changed = True
+    cond_of = control_conditions(fn.node, amb_names) if fn.takes else {}
+
+    def emit(stmt, c: ast.Call):
+        """A use of the function's own randomness; wrapped when it is conditional on ambient state."""
+        w = cond_of.get(id(c))
+        if w is None and fn.takes:
+            for a in list(c.args) + [k.value for k in c.keywords]:
+                w = w or ambient_of(a, amb_names)
+        if w:
+            out.append(("Cond", w, stmt, c.lineno))
+        else:
+            out.append(stmt)
+
     def classify(arg):
         if arg is None:
             return "AOmitted"
@@ -221,10 +376,17 @@ def analyse(fn: Fn, by_simple: dict[str, list[Fn]]):
             meths = [f for f in by_simple.get(c.func.attr, []) if f.cls and f.takes]
             if recv in derived and recv != "self" and meths and not any(f.rand_params for f in meths):
                 # a method of an object that carries the caller's randomness (options.random_generator())
-                out.append(("Call", meths[0].name if len(meths) == 1 else c.func.attr, "ASeeded", c.lineno))
+                emit(("Call", meths[0].name if len(meths) == 1 else c.func.attr, "ASeeded", c.lineno), c)
                 return
             if recv in gens and c.func.attr not in ("spawn", "manual_seed"):
-                out.append(("Draw", recv + "." + c.func.attr, c.lineno))
+                emit(("Draw", recv + "." + c.func.attr, c.lineno), c)
+                return
+            if recv in gens and c.func.attr == "spawn":
+                # children are numbered by a counter kept in the parent: harmless unless how many are taken is ambient
+                before = len(out)
+                emit(("Draw", recv + ".spawn", c.lineno), c)
+                if out[-1][0] != "Cond":
+                    del out[before:]
                 return
         # seed material that depends on the interpreter process (string hashing is randomised per process)
         if fn.takes and d in PROCESS_DEPENDENT:
@@ -252,7 +414,7 @@ def analyse(fn: Fn, by_simple: dict[str, list[Fn]]):
             if isinstance(key, int) and cl in ("AOmitted", "ANone"):
                 out.append(("Global", d + "()", c.lineno))
             else:
-                out.append(("Call", "lib:" + d, cl, c.lineno))
+                emit(("Call", "lib:" + d, cl, c.lineno), c)
             return
         # calls into the graph
         simple = None
@@ -274,6 +436,13 @@ def analyse(fn: Fn, by_simple: dict[str, list[Fn]]):
             if (recv == "self" or is_super) and fn.cls:
                 cands = [f for f in cands if related(f.cls, fn.cls)]
         if not cands:
+            # any other callee that is handed the generator itself consumes it (DataFrame.sample(random_state=rng),
+            # scipy / sklearn helpers, ...): an opaque library callee given the caller's generator
+            handed = [a for a in list(c.args) + [k.value for k in c.keywords]
+                      if isinstance(a, (ast.Name, ast.Attribute)) and dotted(a) in gens]
+            if handed and d not in GEN_MAKERS and not (isinstance(c.func, ast.Name) and c.func.id in ("isinstance", "type", "id", "repr", "str", "print", "replace", "len")) \
+                    and not (isinstance(c.func, ast.Attribute) and c.func.attr in ("format", "bind", "debug", "info", "warning")):
+                emit(("Call", "lib:" + (d or simple or "?"), "ASeeded", c.lineno), c)
             return
         # the randomness parameter of the callee family (must agree)
         sigs = {(tuple(f.rand_params), tuple(f.pos.index(p) if p in f.pos else -1 for p in f.rand_params)) for f in cands if f.rand_params}
@@ -298,12 +467,37 @@ def analyse(fn: Fn, by_simple: dict[str, list[Fn]]):
             if worst is None or order.index(cl) > order.index(worst):
                 worst = cl
         target = cands[0].name if len(cands) == 1 else simple
-        out.append(("Call", target, worst, c.lineno))
+        emit(("Call", target, worst, c.lineno), c)
 
     calls = sorted((x for x in ast.walk(fn.node) if isinstance(x, ast.Call)), key=lambda x: (x.lineno, x.col_offset))
     for c in calls:
         visit_call(c)
     if fn.takes:
+        # truth-value tests of seed material: 0 and the empty sequence are valid seeds
+        seedish = {d for d in derived if d.split(".")[-1] in ("rng", "seed", "spec", "random_state", "generator")}
+
+        def truth_tested(e):
+            if isinstance(e, ast.UnaryOp) and isinstance(e.op, ast.Not):
+                return truth_tested(e.operand)
+            if isinstance(e, ast.BoolOp):
+                return next((t for t in map(truth_tested, e.values) if t), None)
+            d = dotted(e) if isinstance(e, (ast.Name, ast.Attribute)) else None
+            return d if d in seedish else None
+        for x in ast.walk(fn.node):
+            tests = []
+            if isinstance(x, (ast.If, ast.While, ast.IfExp, ast.Assert)):
+                tests.append(x.test)
+            elif isinstance(x, ast.comprehension):
+                tests += x.ifs
+            elif isinstance(x, ast.BoolOp):
+                tests.append(x)
+            elif isinstance(x, ast.UnaryOp) and isinstance(x.op, ast.Not):
+                tests.append(x)
+            for t in tests:
+                d = truth_tested(t)
+                if d:
+                    out.append(("Global", f"truth-value-of-seed:{d}", getattr(t, "lineno", 0)))
+                    break
         # iteration in set order (differs between processes for strings)
         for x in ast.walk(fn.node):
             it = x.iter if isinstance(x, (ast.For, ast.comprehension)) else None
@@ -475,6 +669,61 @@ def shape_fanout(src):
     return out
 
 
+def const_int(e):
+    """Value of an integer constant expression (literals combined with << ** * + -), else None."""
+    if isinstance(e, ast.Constant) and isinstance(e.value, int) and not isinstance(e.value, bool):
+        return e.value
+    if isinstance(e, ast.BinOp):
+        a, b = const_int(e.left), const_int(e.right)
+        if a is None or b is None:
+            return None
+        try:
+            if isinstance(e.op, ast.LShift) and 0 <= b < 64:
+                return a << b
+            if isinstance(e.op, ast.Pow) and 0 <= b < 64 and abs(a) <= 1024:
+                return a ** b
+            if isinstance(e.op, ast.Mult):
+                return a * b
+            if isinstance(e.op, ast.Add):
+                return a + b
+            if isinstance(e.op, ast.Sub):
+                return a - b
+        except (OverflowError, ValueError):
+            return None
+    return None
+
+
+def size_thresholds(src: Path, low=1 << 12, high=1 << 26) -> list[int]:
+    """Integer constants of the graph sources that sizes are compared with: module-level NAME = <constant> that is
+    used in a comparison somewhere in the module, and constants written directly in comparisons.  The relational runs
+    train at sizes beyond the largest of them (code paths that only exist for large inputs)."""
+    found = set()
+    for rel in MODULES:
+        f = src / rel
+        if not f.exists():
+            continue
+        tree = ast.parse(f.read_text())
+        consts = {}
+        for n in tree.body:
+            tgt, val = None, None
+            if isinstance(n, ast.Assign) and len(n.targets) == 1 and isinstance(n.targets[0], ast.Name):
+                tgt, val = n.targets[0].id, n.value
+            elif isinstance(n, ast.AnnAssign) and isinstance(n.target, ast.Name) and n.value is not None:
+                tgt, val = n.target.id, n.value
+            v = const_int(val) if val is not None else None
+            if tgt and v is not None:
+                consts[tgt] = v
+        for x in ast.walk(tree):
+            if isinstance(x, ast.Compare):
+                for e in [x.left] + list(x.comparators):
+                    v = const_int(e)
+                    if v is None and isinstance(e, ast.Name):
+                        v = consts.get(e.id)
+                    if v is not None and low <= v <= high:
+                        found.add(v)
+    return sorted(found)
+
+
 def extract(src: Path) -> dict:
     return {"graph": graph(src), "random_generator": shape_random_generator(src), "deriving": shape_deriving(src),
             "rankers": shape_rankers(src), "fanout": shape_fanout(src)}
@@ -500,13 +749,16 @@ def to_gallina(info) -> str:
     rows = []
     for r in info["graph"]:
         st = []
-        for s in r["stmts"]:
+        def one(s):
             if s[0] == "Draw":
-                st.append("SDraw")
-            elif s[0] == "Call":
-                st.append(f"SCall {cs(s[1])} {s[2]}")
-            else:
-                st.append(f"SGlobal {cs(s[1])}")
+                return "SDraw"
+            if s[0] == "Call":
+                return f"SCall {cs(s[1])} {s[2]}"
+            if s[0] == "Cond":
+                return f"SCond {cs(s[1])} ({one(s[2])})"
+            return f"SGlobal {cs(s[1])}"
+        for s in r["stmts"]:
+            st.append(one(s))
         rows.append(f"  {{| fn_name := {cs(r['name'])}; fn_takes := {'true' if r['takes'] else 'false'}; "
                     f"fn_primitive := {'true' if r['primitive'] else 'false'};\n     fn_body := [" + "; ".join(st) + "] |}")
     out.append(";\n".join(rows) + "\n].\n\n")
@@ -514,6 +766,8 @@ def to_gallina(info) -> str:
     fams = {}
     for r in info["graph"]:
         for s in r["stmts"]:
+            if s[0] == "Cond":
+                s = s[2]
             if s[0] == "Call" and not s[1].startswith("lib:") and s[1] not in names:
                 fams.setdefault(s[1], sorted(n for n in names if n.split(".")[-1] == s[1] and "." in n))
     out.append("(* method families: a call through an object resolves to one of these, decided by the objects at hand *)\n")
